@@ -295,7 +295,9 @@ impl RunSpec {
                 *m = Mode::Held;
             }
         }
-        if matches!(self.signal, SignalPlan::AtStart(_) | SignalPlan::AtEnd(_)) && !api.is_fold() {
+        // Signals from inside a user future: sequential APIs (hand-out == start, exact bound) and
+        // concurrent call APIs (bound asserted from the next quiescent point on, see o_intr).
+        if matches!(self.signal, SignalPlan::AtStart(_) | SignalPlan::AtEnd(_)) && api.is_stream() {
             self.signal = SignalPlan::Tape;
         }
         self.fail.sort_unstable();
